@@ -508,6 +508,10 @@ func genC19(r *rand.Rand, tier string, idx int) *World {
 	}
 	w.Extra["final"] = pick(r, "canary-pause", "canary-unpause", "canary-validate", "canary-fail", "ru-pause", "freeze")
 	w.Extra["c02prop"] = "C19"
+	if idx%3 == 1 {
+		w.Extra["finalFault"] = pick(r, "reject", "lost", "crash-before", "crash-after")
+		w.Extra["finalFaultAt"] = pick(r, "updatestatus", "update", "any")
+	}
 	return w
 }
 
@@ -576,6 +580,13 @@ func bodyC19(s *Sim) {
 			}
 		}
 	}
+	if fk := s.W.Extra["finalFault"]; fk != "" && (cmd == "canary-fail" || cmd == "canary-validate") {
+		// the reconcile that acts on the command is hit by a fault or the process stops around
+		// one of its writes; fresh, fault-free reconciles follow and must still obey the command
+		s.RunTaskWithFault(CtrlEDS, key, fk, func(c *Call) bool {
+			return c.IsWrite() && c.Kind == KEDS && (s.W.Extra["finalFaultAt"] == "any" || c.Verb == s.W.Extra["finalFaultAt"])
+		})
+	}
 	s.fairRounds(3)
 	e = s.Store.GetEDS(def.NS, def.Name)
 	if e == nil {
@@ -636,7 +647,7 @@ func bodyC19(s *Sim) {
 func init() {
 	register(&Profile{Name: "C19", Decide: []string{"C19"}, Quick: 1500, Thorough: 80000, Gen: genC19, Body: bodyC19,
 		NonVacuous: []string{"C19.command", "C19.obeyed"}, Chunk: 50,
-		Rule: "ExtendedDaemonSet states {no canary, canary running, auto-paused, user-paused, failed, mid rolling update} reached by seeded history with the real kubectl-eds command bodies running as simulated clients whose Get and Patch/Update interleave with reconciles; every command's write set and refusal is judged; then one final command followed by fair reconciles, after which the controller's interpretation (state, promotion of exactly the validated replica set, rollback) is judged. " + histRule})
+		Rule: "ExtendedDaemonSet states {no canary, canary running, auto-paused, user-paused, failed, mid rolling update} reached by seeded history with the real kubectl-eds command bodies running as simulated clients whose Get and Patch/Update interleave with reconciles; every command's write set and refusal is judged; then one final command followed by fair reconciles (in a third of the runs the first reconcile acting on a fail or validate command loses one of its ExtendedDaemonSet writes to a reject, a lost reply or a process stop before/after it), after which the controller's interpretation (state, promotion of exactly the validated replica set, rollback) is judged. " + histRule})
 }
 
 // ---------------------------------------------------------------------------------------
